@@ -61,8 +61,16 @@ class C13(Check):
             else:
                 ops.append(["reseed", rng.randrange(2 ** 31)])
         ops.append(["batch", rng.randint(1, 5)])
-        return {"engine": "compsim", "mode": "sampler", "kind": kind, "dims": d, "seed": rng.randrange(2 ** 31),
-                "bs": rng.randint(1, 6), "ops": ops}
+        scn = {"engine": "compsim", "mode": "sampler", "kind": kind, "dims": d, "seed": rng.randrange(2 ** 31),
+               "bs": rng.randint(1, 6), "ops": ops}
+        if rng.random() < 0.5:
+            # other sampler objects of the same class live in the same process (a calibrator usually holds several):
+            # they are used, on spaces of other dimensions, before and between the operations on ours
+            scn["siblings"] = [[rng.randint(1, 12), rng.randint(1, 4)] for _ in range(rng.randint(1, 2))]
+        if rng.random() < 0.06:
+            # the same object is later used on a space of another dimension
+            ops.insert(rng.randrange(1, len(ops)), ["dims", rng.randint(1, 12)])
+        return scn
 
     # ----------------------------------------------------------------------------------------
     def make(self, kind, bs, seed):
@@ -126,6 +134,10 @@ class C13(Check):
                 if pre.shape != (n, d):
                     raise Discard("unexpected pre-snap shape")
                 return pre
+            for sd, sn in scn.get("siblings", []):
+                sib = self.make(kind, 1, 777)
+                sib.sample_batch(sn, unit_space(sd), np.zeros((0, sd)), np.zeros(0))
+                res.stats["sibling-objects-used"] += 1
             obj = self.make(kind, scn["bs"], scn["seed"])
             twin_ctor = self.make(kind, scn["bs"], scn["seed"])      # construct <-> construct
             stream = []          # points since the last (re)seed
@@ -170,6 +182,20 @@ class C13(Check):
                 elif op[0] == "restart":
                     obj = restart(obj)
                     res.stats["restart@sampler"] += 1
+                elif op[0] == "dims":
+                    # same object, another space: within the new dimension the sequence rule must hold again
+                    if stream and not self.twin_equal(kind, scn, origin, stream, draw, res, twin_ctor):
+                        return
+                    d = op[1]
+                    space = unit_space(d)
+                    empty_p, empty_l = np.zeros((0, d)), np.zeros(0)
+                    alpha = rseq_alpha(d) if kind == "rseq" else None
+                    if kind == "halton" and t0 is not None:
+                        t0 = t0 + len(stream)          # the index keeps counting
+                    first_pt = None
+                    stream = []
+                    origin = ("dims", d)
+                    res.stats["dimension-switch@sampler"] += 1
                 elif op[0] == "reseed":
                     # finish the current stream: a twin with the same origin asked for everything at once
                     if stream and not self.twin_equal(kind, scn, origin, stream, draw, res, twin_ctor):
@@ -190,6 +216,8 @@ class C13(Check):
 
     def twin_equal(self, kind, scn, origin, stream, draw, res, twin_ctor):
         """A second object with the same seed history, asked for one batch of the total size, emits bitwise the same points."""
+        if origin[0] == "dims":
+            return True
         if origin[0] == "ctor":
             twin = twin_ctor
         else:
